@@ -423,12 +423,27 @@ std::vector<Node::ControlEndpoint> Node::preferred_control_endpoints() const {
         }
     };
 
+    // Automatically discovered endpoints are published only when auto-advertise allows it:
+    // not in mode Off, and not while Warn mode withholds conflicting candidates.
+    const bool auto_publish_allowed =
+        config_.advertise_auto_mode != Config::AdvertiseAutoMode::Off &&
+        !(config_.advertise_auto_mode == Config::AdvertiseAutoMode::Warn && config_.auto_advertise_conflict);
+
     auto append_self_endpoint = [&]() {
         const auto self = self_endpoint();
         if (self.empty()) {
             return;
         }
         if (const auto parsed = parse_endpoint(self)) {
+            const bool discovered = nat_status_.has_value() && nat_status_->stun_succeeded;
+            if (discovered) {
+                if (!auto_publish_allowed) {
+                    return;
+                }
+                if (!config_.advertise_allow_private && network::is_non_routable_advertise_host(parsed->first)) {
+                    return;
+                }
+            }
             append(parsed->first, parsed->second, false);
         }
     };
@@ -447,9 +462,11 @@ std::vector<Node::ControlEndpoint> Node::preferred_control_endpoints() const {
         }
     }
 
-    for (const auto& candidate : config_.auto_advertise_candidates) {
-        const auto port = candidate.port != 0 ? candidate.port : fallback_port;
-        append(candidate.host, port, false);
+    if (auto_publish_allowed) {
+        for (const auto& candidate : config_.auto_advertise_candidates) {
+            const auto port = candidate.port != 0 ? candidate.port : fallback_port;
+            append(candidate.host, port, false);
+        }
     }
 
     if (transport_port != 0) {
